@@ -76,6 +76,7 @@ func runInprocScenario(c *Ctx, tr transport.Transport, socks []mangos.Socket, sc
 		sock     mangos.Socket
 		l        transport.Listener
 		closed   bool
+		bound    bool
 	}
 	type dlr struct {
 		id, addr int
@@ -90,6 +91,7 @@ func runInprocScenario(c *Ctx, tr transport.Transport, socks []mangos.Socket, sc
 	parked := 0
 	var hist []string
 	var pipes []transport.Pipe
+	dialOf := map[int]int{} // outstanding Dial call -> dialer id
 	// mostly one protocol pairing (pair/pair), sometimes req/rep so that both bad-protocol and matching pairs occur
 	pickSock := func() mangos.Socket {
 		k := c.R.Intn(10)
@@ -119,6 +121,7 @@ func runInprocScenario(c *Ctx, tr transport.Transport, socks []mangos.Socket, sc
 		var toks []string
 		for _, r := range rets {
 			parked--
+			delete(dialOf, r.call)
 			if r.err == nil && r.p != nil {
 				toks = append(toks, fmt.Sprintf("ret:%d:conn", r.call))
 				pipes = append(pipes, r.p)
@@ -220,6 +223,19 @@ func runInprocScenario(c *Ctx, tr transport.Transport, socks []mangos.Socket, sc
 	newD := func() {
 		sock := pickSock()
 		a := 1 + c.R.Intn(2)
+		if len(ls) > 0 && c.R.Intn(10) < 7 {
+			// mostly a dialer that fits an existing listener: same address, the peer's protocol
+			l := ls[c.R.Intn(len(ls))]
+			a = l.addr
+			switch l.sock {
+			case socks[1]:
+				sock = socks[2]
+			case socks[2]:
+				sock = socks[1]
+			default:
+				sock = socks[0]
+			}
+		}
 		if d, err := tr.NewDialer(addrName(a), sock); err == nil {
 			ds = append(ds, &dlr{id: len(ds) + 1, addr: a, sock: sock, d: d})
 		}
@@ -262,9 +278,15 @@ func runInprocScenario(c *Ctx, tr transport.Transport, socks []mangos.Socket, sc
 			l := openL()
 			sf, pr := info(l.sock)
 			err := l.l.Listen()
+			if err == nil {
+				l.bound = true
+			}
 			line(fmt.Sprintf("listen %d %d %d %d", l.id, l.addr, sf, pr), "res:"+iprocErr(err))
 		case k < 22 && parked < 6:
 			l := openL()
+			for try := 0; try < 3 && !l.bound; try++ { // mostly a listener that is listening
+				l = openL()
+			}
 			call := nextCall
 			nextCall++
 			parked++
@@ -279,6 +301,7 @@ func runInprocScenario(c *Ctx, tr transport.Transport, socks []mangos.Socket, sc
 			call := nextCall
 			nextCall++
 			parked++
+			dialOf[call] = d.id
 			go func() {
 				p, err := d.d.Dial()
 				resCh <- iprocRes{call, p, err, true}
@@ -291,6 +314,12 @@ func runInprocScenario(c *Ctx, tr transport.Transport, socks []mangos.Socket, sc
 			line(fmt.Sprintf("closel %d", l.id), "res:"+iprocErr(err))
 		default:
 			d := ds[c.R.Intn(len(ds))]
+			for _, id := range dialOf { // mostly a dialer with a Dial waiting
+				if c.R.Intn(3) != 0 {
+					d = ds[id-1]
+				}
+				break
+			}
 			cl, ok := d.d.(interface{ Close() error })
 			if !ok {
 				c.Rep.Notes = append(c.Rep.Notes, "inproc dialer has no Close")
